@@ -114,6 +114,11 @@ func (c *Copier) CopyDict(obj Dict) (Dict, error) {
 	res := Dict{}
 	for _, key := range obj.SortedKeys() {
 		val := obj[key]
+		if val == nil {
+			// a null entry is copied as null
+			res[key] = nil
+			continue
+		}
 		repl, err := c.Copy(val.AsPDF(c.w.GetOptions()))
 		if err != nil {
 			return nil, err
@@ -180,7 +185,11 @@ func inlineFilterRefs(r Getter, val Object) (Native, error) {
 
 // CopyArray copies an array from the source file to the target file.
 func (c *Copier) CopyArray(obj Array) (Array, error) {
-	var res Array
+	if obj == nil {
+		return nil, nil
+	}
+	// an empty array stays an empty array (nil would be written as null)
+	res := make(Array, 0, len(obj))
 	for _, val := range obj {
 		var repl Native
 		if val != nil {
